@@ -17,7 +17,6 @@ structure Good (s : State) : Prop where
   coh : Coherent s.disk s.h.files
   inv : Inv s
   rwAllow : hasWritable s.h = true → s.h.allow = true
-  man : ManifestOk s.disk s.h.files
 
 theorem loadManifest_ok {d : Disk} {files : List (Name × UB)} (h : ManifestOk d files) :
     ∃ man, loadManifest d files = .ok man := by
@@ -76,7 +75,7 @@ structure Closed (s s1 : State) (files' : List (Name × UB)) : Prop where
   sameNames : files'.map Prod.fst = fileNames s.h
   sameIdx : files'.map (fun x => x.2.idx) = s.h.files.map (fun x => x.2.idx)
   sameView : viewFiles s1.disk files' = view s
-  man : ManifestOk s1.disk files'
+  man : ManifestOk s.disk s.h.files → ManifestOk s1.disk files'
   fresh : ∀ g, g.getLast? = some '5' → getF s.disk g = none → getF s1.disk g = none
   found : ∀ n, (names s1.disk).filter (belongs n) = (names s.disk).filter (belongs n)
   inv : Inv s1
@@ -92,7 +91,7 @@ theorem close_good (s : State) (hg : Good s) (c : Bool) :
     obtain ⟨p, hp⟩ := hg.coh.onDisk fl ul (lastFile_mem _ _ hl)
     have hpay : payloadOf s.disk fl = some p := by simp [payloadOf, hp]
     have hnocommit : Closed s { s with h := closedHandle s.h } s.h.files :=
-      ⟨rfl, hg.coh, rfl, rfl, rfl, hg.man, fun _ _ h => h, fun _ => rfl,
+      ⟨rfl, hg.coh, rfl, rfl, rfl, fun h => h, fun _ _ h => h, fun _ => rfl,
         ⟨hg.inv.diskOk, by intro h; simp [hasWritable_closedHandle] at h⟩⟩
     rcases close_spec s c with ⟨h, _⟩ | ⟨_, hw, _, hbad, _⟩ | ⟨_, hw, _, hok, heq⟩ | ⟨_, _, heq⟩
     · rw [hg.isOpen] at h; cases h
@@ -136,7 +135,7 @@ theorem close_good (s : State) (hg : Good s) (c : Bool) :
             rw [hd, viewFiles_congr _ _ _ (fun x hx => getF_setF_ne _ _ _ _ (hlast5 x hx))]
             exact viewFiles_commit_last hg.coh hl hpay
           · simp only
-            intro f ub u b hlf hext
+            intro _ f ub u b hlf hext
             rw [lastFile_setLastUB _ _ _ _ hl] at hlf
             cases hlf
             simp only [mfCommitUB, Option.some.injEq, Prod.mk.injEq] at hext
@@ -167,10 +166,10 @@ theorem close_good (s : State) (hg : Good s) (c : Bool) :
           refine ⟨setLastUB s.h.files { ul with hash := some p }, ?_⟩
           refine ⟨rfl, hc1, map_fst_setLastUB _ _, map_idx_setLastUB _ _ _ _ hl rfl,
             viewFiles_commit_last hg.coh hl hpay, ?_, ?_, ?_, ?_⟩
-          · intro f ub u b hlf hext
+          · intro hman0 f ub u b hlf hext
             rw [lastFile_setLastUB _ _ _ _ hl] at hlf
             cases hlf
-            obtain ⟨u', hu'⟩ := hg.man fl ul u b hl hext
+            obtain ⟨u', hu'⟩ := hman0 fl ul u b hl hext
             have : manifestFile fl ≠ fl := by
               intro h
               have := congrArg List.length h
@@ -215,12 +214,13 @@ theorem viewFiles_append (d : Disk) : ∀ (l l' : List (Name × UB)),
 theorem reopen_closed (s s1 : State) (files' : List (Name × UB)) (hcl : Closed s s1 files')
     (cls : Bool) (t : Target) (m : Mode) (paths : List Name) (hres : Resolves s1.disk t paths)
     (hperm : paths.Perm (files'.map Prod.fst)) (hm : m = .r ∨ m = .rp ∨ m = .a)
+    (hmf : cls = true → ManifestOk s.disk s.h.files)
     (hfresh : m ≠ .r → NextPatchFree s) :
     (openRec s1 cls t m).out = .ok ∧ view (openRec s1 cls t m).st = viewFiles s1.disk files' := by
-  obtain ⟨man0, hman0⟩ := loadManifest_ok hcl.man
   have hman : ∃ man, (if cls then loadManifest s1.disk files' else .ok none) = .ok man := by
     by_cases h : cls
-    · exact ⟨man0, by simp [h, hman0]⟩
+    · obtain ⟨man0, hman0⟩ := loadManifest_ok (hcl.man (hmf h))
+      exact ⟨man0, by simp [h, hman0]⟩
     · exact ⟨none, by simp [h]⟩
   obtain ⟨man, hman⟩ := hman
   rcases hm with rfl | hm
